@@ -35,7 +35,17 @@ class Ctx:
         self.violations = []        # dicts: {what, features, replay}
         self.known_hits = {}        # finding id -> count
         self.extra = {}
-        self.assumptions = []
+        self.assumptions = [
+            'TLC 1.8 (and, where named in the coverage, Apalache / TLAPS) and the JVM are trusted',
+            'the TLA+ transcription of X.690 / X.680 and of the object protocols in spec/*.tla is the oracle; it is itself model-checked '
+            '(reader inverts writer, prefix-freeness, refinement, laws of each machine) but not proved against the standards',
+            'harness/universe.py (terms <-> pyasn1 objects through the public API, projection back) and the stream doubles of '
+            'harness/streams.py are trusted; every acceptor run includes corrupted traces that must be rejected',
+            'exhaustive only inside the bounds stated under coverage.rule; seeded random cases beyond them',
+            'open known findings of known_findings.json are reported as KNOWN-FINDING, not as violations; they are matched by exact '
+            'named deviations of the specification or by narrow feature signatures',
+            'a time-out or an exception outside the library hierarchy counts only when it repeats on a fresh run of the same case',
+        ]
         self.exhaustive = False
         self.rule = ''
         self.tlc_runs = []
